@@ -31,6 +31,7 @@ from collections.abc import Collection, Container, Iterable
 from typing import Any, NamedTuple, Protocol
 
 from kopf._cogs.aiokits import aiotasks, aiotoggles
+from kopf._cogs.clients import errors
 from kopf._cogs.configs import configuration
 from kopf._cogs.structs import bodies, references
 from kopf._core.engines import peering
@@ -116,6 +117,28 @@ async def orchestrator(
         operator_paused=operator_paused,
         operator_indexed=aiotoggles.ToggleSet(all),
     )
+
+    # In case of a failed watcher or pinger, stop the orchestrator, and escalate to the operator
+    # to stop it. Nothing awaits the ensemble's tasks while they run, so their errors would only
+    # be logged otherwise, and the operator would continue half-alive: without that stream
+    # and with no other signs of it. The only valid way to wake up the orchestrator is to cancel
+    # it --- the same as the workers do to their watchers (see `queueing.watcher()`).
+    # Cancellations are not failures: this is how the redundant tasks are normally stopped.
+    orchestrator_task = asyncio.current_task()
+    monitored_tasks: set[aiotasks.Task] = set()
+    task_error: BaseException | None = None
+    is_exiting = False
+
+    def exception_handler(task: aiotasks.Task) -> None:
+        nonlocal task_error
+        exc = None if task.cancelled() else task.exception()
+        if isinstance(exc, errors.APINotFoundError):
+            pass  # the resource is gone (e.g. CRD deletion): not ours to fail; restarted if served.
+        elif exc is not None and task_error is None:
+            task_error = exc
+            if orchestrator_task is not None and not is_exiting:  # never double-cancel the exit.
+                orchestrator_task.cancel()
+
     try:
         async with insights.revised:
             while True:
@@ -127,10 +150,21 @@ async def orchestrator(
                     identity=identity,
                     ensemble=ensemble,
                 )
+
+                # Monitor the newly spawned tasks; forget those already stopped and removed.
+                current_tasks = set(ensemble.get_tasks(ensemble.get_keys()))
+                for task in current_tasks - monitored_tasks:
+                    task.add_done_callback(exception_handler)
+                monitored_tasks = current_tasks
+
     except asyncio.CancelledError:
+        is_exiting = True
         tasks = ensemble.get_tasks(ensemble.get_keys())
         await aiotasks.stop(tasks, title="streaming", logger=logger, interval=10)
-        raise
+        if task_error is None:
+            raise
+        else:
+            raise task_error
 
 
 # Directly corresponds to one iteration of an orchestrator, but it is extracted for testability:
@@ -176,9 +210,12 @@ async def terminate_redundancies(
 ) -> None:
     # Do not distinguish the keys: even for the case when the peering CRD is served by the operator,
     # for the peering CRD or namespace deletion, both tasks are stopped together, never apart.
+    # Also restart the tasks that have exited on their own: e.g. a watcher of a resource that was
+    # gone for a moment (HTTP 404) and is served again before its absence was ever noticed here.
     redundant_keys = {key for key in ensemble.get_keys()
                       if key.namespace not in remaining_namespaces
-                      or key.resource not in remaining_resources}
+                      or key.resource not in remaining_resources
+                      or any(task.done() for task in ensemble.get_tasks({key}))}
     redundant_tasks = ensemble.get_tasks(redundant_keys)
     redundant_flags = ensemble.get_flags(redundant_keys)
     await aiotasks.stop(redundant_tasks, title="streaming", logger=logger, interval=10, quiet=True)
